@@ -2,6 +2,18 @@
 # usage: tools/mkseed.sh <property id> <seed name> "<one-line description of ideas already taken>"
 # creates a scratch worktree /tmp/seed/<name> of /repo HEAD and the prompt file /tmp/seed/<name>.prompt.txt (property text only; nothing from /verif)
 P=$1; N=$2; TAKEN=$3
+if [ "$TAKEN" = "auto" ]; then TAKEN=$(python3 - "$P" <<'PY'
+import json, os, sys, glob
+out = []
+for d in sorted(glob.glob('/verif/seeded/%s*' % sys.argv[1])):
+    try:
+        s = ' '.join(json.load(open(os.path.join(d, 'meta.json')))['summary'].split())
+    except Exception:
+        continue
+    out.append('(%d) ' % (len(out) + 1) + s[:330].rsplit(' ', 1)[0] + ' ...')
+print(' '.join(out))
+PY
+); fi
 mkdir -p /tmp/seed
 [ -f /tmp/seed/$P.prop.txt ] || python3 - "$P" <<'PY'
 import json, sys
